@@ -171,7 +171,7 @@ fn run_pair(out: &mut CaseOut, text: &str, goals: &[String], checked: bool, orig
             db.budget.set(400_000);
             let mut s = chalk_engine::solve::SLGSolver::<I>::new(10, None);
             let o = solve(&mut s, &db, &peeled);
-            let stale = crate::common::slg_stale_table(&mut s);
+            let stale = crate::common::slg_stale_table(&mut s, &peeled);
             (o, db.nonground_coinductive.get(), stale)
         });
         let (ob, _, fb) = with_program(&ls.1, || fresh_solve_budget(&ls.1, rec(), &peeled, 400_000));
@@ -230,7 +230,20 @@ pub fn run(ctx: &Ctx, out: &mut CaseOut) {
         return;
     }
     // generated programs across all fragments
-    let mode = (ctx.k - nc) % 12;
+    let mode = (ctx.k - nc) % 13;
+    if mode == 12 {
+        // propositional fragment: dense cycles with base cases on one struct, closed conjunctions in every order
+        let coinductive = ((ctx.k - nc) / 13) % 3 == 2;
+        let p = gen_propositional(&mut r, coinductive);
+        let goals: Vec<String> = gen_propositional_goals(&mut r, &p, 12, !coinductive).iter().map(goal_text).collect();
+        let text = program_text(&p);
+        out.count("generated-fragment:propositional");
+        run_pair(out, &text, &goals, false, "generated:propositional");
+        if out.sample.is_none() {
+            out.sample = Some(J::obj().set("origin", "generated:propositional").set("program", text.as_str()).set("goal", goals[0].as_str()));
+        }
+        return;
+    }
     if mode == 11 {
         // lifetime fragment (answers carry region constraints; only the substitutions are compared)
         let w = crate::props::workload::lifetime_work(&mut r, 10);
